@@ -246,12 +246,16 @@ def operand_place(op):
 
 def operand_local(op):
     """Local if the operand is a projection-free copy/move."""
+    if op is None:
+        return None
     if op[0] in ("cp", "mv") and len(op[1]) == 1:
         return op[1][0]
     return None
 
 
 def const_int(op):
+    if op is None:
+        return None
     if op[0] == "k" and op[1] is not None:
         return int(op[1])
     return None
